@@ -7,15 +7,15 @@ namespace Nervus.Txn
 
 /-! ### what the regenerated table says about the source (re-checked on every build) -/
 
-theorem code_not_atomic : Generated.capiTxnStmtAtomic = false := by decide
+theorem code_atomic : Generated.capiTxnStmtAtomic = true := by decide
 theorem code_reads_committed : Generated.capiTxnReadsStaged = false := by decide
 theorem create_node_first : Generated.createStagesNodeBeforeProps = true := by decide
 theorem autocommit_drops : Generated.capiAutoCommitDropsTxnOnError = true := by decide
 
-theorem codeStep_def : codeStep = step false false := by
-  unfold codeStep; rw [code_not_atomic, code_reads_committed]
-theorem codeRun_def : codeRun = run false false := by
-  unfold codeRun; rw [code_not_atomic, code_reads_committed]
+theorem codeStep_def : codeStep = step true false := by
+  unfold codeStep; rw [code_atomic, code_reads_committed]
+theorem codeRun_def : codeRun = run true false := by
+  unfold codeRun; rw [code_atomic, code_reads_committed]
 
 /-! ### C13: without a partial effect the code's step is the atomic step -/
 
@@ -318,15 +318,14 @@ theorem atomic_run_eq (ryw : Bool) (ops : List Op) : ∀ (σ : State),
 /-- C13's history-level trigger is exactly the hypothesis of `atomic_run_eq` for the code's reads -/
 theorem anyPartialEffect_false (ops : List Op) : ∀ (σ : State), anyPartialEffect σ ops = false →
     ∀ (pre : List Op) (s : Stmt) (post : List Op), ops = pre ++ .tq s :: post →
-      ∀ ps, (codeRun σ pre).staged = some ps →
-        ¬ ((exec (codeRun σ pre).committed ((codeRun σ pre).allocated + adds ps) s).failed = true ∧
-            (exec (codeRun σ pre).committed ((codeRun σ pre).allocated + adds ps) s).prims ≠ []) := by
-  rw [codeRun_def]
+      ∀ ps, (run false false σ pre).staged = some ps →
+        ¬ ((exec (run false false σ pre).committed ((run false false σ pre).allocated + adds ps) s).failed = true ∧
+            (exec (run false false σ pre).committed ((run false false σ pre).allocated + adds ps) s).prims ≠ []) := by
   induction ops with
   | nil => intro σ _ pre s post h; cases pre <;> simp at h
   | cons op ops ih =>
     intro σ hno pre s post hsplit ps hst
-    simp only [anyPartialEffect, Bool.or_eq_false_iff, codeStep_def] at hno
+    simp only [anyPartialEffect, Bool.or_eq_false_iff] at hno
     cases pre with
     | nil =>
       simp only [List.nil_append, List.cons.injEq] at hsplit
